@@ -67,7 +67,7 @@ Lemma get_frame_roots_fcc st c f : get_frame_roots (set_fcc st c) f = get_frame_
 Proof. reflexivity. Qed.
 
 Lemma calc_loop_sim st es T Dr R k Ta na e maxf : Core st es T Dr R -> incl Ta T -> In na Ta ->
-  ~ is_temp k (nd_id na) -> a_id e = nd_id na ->
+  ~ k (nd_id na) -> a_id e = nd_id na ->
   forall fuel st0 f, (exists c0, st0 = set_fcc st c0) -> cache_inv k st0 Ta R ->
   exists c', calc_loop cap fuel st0 e f maxf =
                (calc_pure fuel vals (l_idx st) (l_roots st) (nd_id na) f maxf, set_fcc st c') /\
@@ -89,7 +89,7 @@ Proof.
 Qed.
 
 Lemma calc_frame_sim st es T Dr R k Ta na e co : Core st es T Dr R -> incl Ta T -> In na Ta ->
-  ~ is_temp k (nd_id na) -> a_id e = nd_id na -> cache_inv k st Ta R ->
+  ~ k (nd_id na) -> a_id e = nd_id na -> cache_inv k st Ta R ->
   exists c', calc_frame cap es st e co = (frame_pure es vals (l_idx st) (l_roots st) e co, set_fcc st c') /\
              cache_inv k (set_fcc st c') Ta R.
 Proof.
